@@ -1,2 +1,13 @@
 //! Read-only probe (child module of `ntp-proto/src/cookiestash.rs`), compiled only under
-//! `--cfg pendulum_project_ntpd_rs_verif`. Owned by the world that needs it; must never mutate state.
+//! `--cfg pendulum_project_ntpd_rs_verif`. Owned by world w1x; never mutates state.
+
+use super::CookieStash;
+
+impl CookieStash {
+    /// The cookies currently held, oldest (next to be used) first.
+    pub(crate) fn verif_contents(&self) -> Vec<Vec<u8>> {
+        (0..self.valid)
+            .map(|i| self.cookies[(self.read + i) % self.cookies.len()].clone())
+            .collect()
+    }
+}
